@@ -896,6 +896,8 @@ fn build_ge(lhs: &AstNode, rhs: &AstNode) -> Result<Evaluator> {
         Value::Date(rh) => Value::Boolean(lh >= rh),
         _ => value_null!("eval_less_or_equal_date"),
       },
+      // times, dates with time and durations are compared the same way as in unary tests
+      Value::Time(_) | Value::DateTime(_) | Value::DaysAndTimeDuration(_) | Value::YearsAndMonthsDuration(_) => eval_in_unary_greater_or_equal(&lhv, &rhv),
       _ => value_null!("eval_less_or_equal"),
     }
   }))
@@ -921,6 +923,8 @@ fn build_gt(lhs: &AstNode, rhs: &AstNode) -> Result<Evaluator> {
         Value::Date(rh) => Value::Boolean(lh > rh),
         _ => value_null!("eval_greater_then_date"),
       },
+      // times, dates with time and durations are compared the same way as in unary tests
+      Value::Time(_) | Value::DateTime(_) | Value::DaysAndTimeDuration(_) | Value::YearsAndMonthsDuration(_) => eval_in_unary_greater(&lhv, &rhv),
       _ => value_null!("eval_greater_then"),
     }
   }))
@@ -1102,6 +1106,8 @@ fn build_le(lhs: &AstNode, rhs: &AstNode) -> Result<Evaluator> {
         Value::Date(rh) => Value::Boolean(lh <= rh),
         _ => value_null!("eval_less_or_equal_date"),
       },
+      // times, dates with time and durations are compared the same way as in unary tests
+      Value::Time(_) | Value::DateTime(_) | Value::DaysAndTimeDuration(_) | Value::YearsAndMonthsDuration(_) => eval_in_unary_less_or_equal(&lhv, &rhv),
       _ => value_null!("eval_less_or_equal"),
     }
   }))
@@ -1127,6 +1133,8 @@ fn build_lt(lhs: &AstNode, rhs: &AstNode) -> Result<Evaluator> {
         Value::Date(rh) => Value::Boolean(lh < rh),
         _ => value_null!("eval_less_then_date"),
       },
+      // times, dates with time and durations are compared the same way as in unary tests
+      Value::Time(_) | Value::DateTime(_) | Value::DaysAndTimeDuration(_) | Value::YearsAndMonthsDuration(_) => eval_in_unary_less(&lhv, &rhv),
       _ => value_null!("eval_less_then"),
     }
   }))
